@@ -294,6 +294,12 @@ def check_findbin(case, st):
     return None
 
 
+def f32r(x):
+    """x rounded to the nearest binary32 (exact recovery of a float printed with %.9g)"""
+    import struct
+    return struct.unpack("f", struct.pack("f", float(x)))[0]
+
+
 def spread_tol(lo, hi):
     return 2.0 ** -20 * max(abs(lo), abs(hi), 1) + 2.0 ** -16 * (hi - lo)
 
@@ -328,9 +334,12 @@ def check_spread(case, tr, side, qside, stats, corr):
             lox, hix, loy, hiy = st["limx"][bx], st["limx"][bx + 1], st["limy"][by], st["limy"][by + 1]
             for (v, lo, hi, what) in ((sx, lox, hix, "spreadCoordX"), (sy, loy, hiy, "spreadCoordY"),
                                       (mx, lox, hix, "simpleCoordX"), (my, loy, hiy, "simpleCoordY")):
-                t = spread_tol(lo, hi)
-                if not (math.isfinite(v) and lo - t <= v <= hi + t):
-                    return "%s of cell %d at op %d is %r, outside its bin [%d,%d]" % (what, c, k, v, lo, hi)
+                # tolerance 0 (spreadCells clamps into [minCoord, maxCoord] since the repair of F21; simpleCoord is the bin centre):
+                # the binary32 value (recovered exactly from its %.9g print) against the bin limits as the code holds them, (float)limit
+                # (= the integer limit itself whenever |limit| <= 2^24)
+                if not (math.isfinite(v) and f32r(lo) <= f32r(v) <= f32r(hi)):
+                    return "%s of cell %d at op %d is %r, outside its bin [%d,%d] (closed interval, no tolerance)" % (what, c, k, v, lo, hi)
+                stats["spread_values_checked_tolerance_0"] = stats.get("spread_values_checked_tolerance_0", 0) + 1
             stats["spread_cells"] += 1
             if (k, c) in exact:
                 ex, ey = exact[(k, c)]
@@ -454,14 +463,20 @@ def evaluate(lines, impl, model, stats):
                     nontriv.add(l)
             continue
         trace, _, side = i.partition(" ## ")
+        stats["history_cases_submitted"] += 1
         if trace.startswith("GENERR"):
             stats["generr"] += 1
+            stats["skipped_" + trace.split(" ## ")[0].strip()[:80]] += 1
             continue
         try:
             case = parse_case(l)
         except Exception as e:   # malformed corpus line
             stats["generr"] += 1
+            stats["skipped_malformed_case_line"] += 1
             continue
+        if not regions_disjoint(case["regions"]):
+            stats["generr"] += 1
+            stats["skipped_regions_not_disjoint"] += 1     # outside the domain; the generators never produce it
         if "DIED" in trace or trace.startswith("<missing>"):
             why = trace[trace.find("DIED"):][:200] if "DIED" in trace else trace[:200]
             nops_done = trace.count("| O ")
@@ -512,6 +527,9 @@ def evaluate(lines, impl, model, stats):
     return bad_out, mism, nontriv
 
 
+SKIP_LIMIT = 0.01     # fraction of the history cases that may be skipped (GENERR / malformed / out-of-domain regions) before the run fails
+
+
 class Stats(dict):
     def __missing__(self, k):
         return 0
@@ -535,7 +553,7 @@ def run_variant(variant, lines, driver, stats):
 
 
 def run(ctx):
-    proof_ok, proof = common.proof_status(ctx, "C16")
+    proof_ok, proof = common.proof_status_all(ctx, "C16", ["gaps2_C16"])
     harness = common.build_harness("density")
     driver = common.build_driver("density")
     lines = common.corpus("C16", ("HR ", "HC ", "SP "))
@@ -579,6 +597,15 @@ def run(ctx):
         known = set(l for (l, _, _) in bad_out)
         bad_out += [(l, i, "[NDEBUG build] " + w) for (l, i, w) in b2 if l not in known]
         mism += [(l, a, b, "[NDEBUG build] " + w) for (l, a, b, w) in m2]
+    # cases on which NOTHING is judged (GENERR of the harness: inexact float factors / parameter set refused; malformed line; regions
+    # not disjoint): the generators are built so that this never happens (0 in every registered run).  More than SKIP_LIMIT of the
+    # history cases skipped = the harness or the generator is broken and the run proves nothing: reported, not passed.
+    nskip, nsub = stats["generr"], stats["history_cases_submitted"]
+    if nsub == 0 or nskip > SKIP_LIMIT * nsub:
+        ctx.violation("harness broken: %d of %d history cases of C16 were skipped without being judged (limit %.1f %%): %s"
+                      % (nskip, nsub, 100 * SKIP_LIMIT, {k: v for k, v in stats.items() if k.startswith("skipped_")}),
+                      {"broken": "harness/density.cpp case generation / checks/c16.py parse_case (cases skipped instead of judged)",
+                       "skipped": nskip, "submitted": nsub, "limit_fraction": SKIP_LIMIT}, found_input=False)
     for (l, i, w) in bad_out[:3]:
         ctx.violation("density grid / cell-to-bin allocation of /repo violates C16: " + w,
                       {"case": l, "format": "see the header of harness/density.cpp", "implementation_trace": i, "why": w})
@@ -598,8 +625,8 @@ def run(ctx):
         "trusted_base": common.TRUSTED_BASE + [
             "floats: the cost order, ideal split position and transportation assignments of the rough legalizer are not modelled "
             "(arguments of the model; the theorems hold for all of them); lemon/transportation solvers are outside the model",
-            "spreadCells: proved over Q; the float evaluation is validated per run (inside the bin within 2^-20*|coord| + 2^-16*width, "
-            "and within 8 such tolerances of the exact value)",
+            "spreadCells: proved over Q; the float evaluation is validated per run (inside the CLOSED bin interval with tolerance 0 -- the code clamps --, "
+            "and within 8 tolerances 2^-20*|coord| + 2^-16*width of the exact rational value)",
             "float->int products sideMargin*minCellHeight, sizeFactor*minCellHeight are inputs of the model (exact in the generated cases)"],
         "evaluations": len(lines), "distinct_nontrivial": len(nontriv),
         "rule": "history cases (HR: DensityGrid from rectangles; HC: DensityLegalizer::fromIspdCircuit from rows + fixed obstructions + "
@@ -619,11 +646,16 @@ def run(ctx):
                 "(they divide by the extent).",
         "samples": [hcases[0][:400], hcases[len(hcases) // 2][:400], lines[-1][:200]] if hcases else [],
         "distribution": dict(stats),
+        "skipped_cases": {"skipped": stats["generr"], "history_cases_submitted": stats["history_cases_submitted"], "limit_fraction": SKIP_LIMIT,
+                          "rule": "a run with more skipped cases than the limit fails as 'harness broken'"},
         "corpus_cases": ncorpus,
         "model_vs_impl_differences": len(mism), "impl_outputs_violating_statement": len(bad_out)})
     return ctx.finish(LEVEL, cov, [
         "regions are proper (min <= max) and pairwise disjoint rectangles, demands are non-negative (areas), binSize >= 1, margin >= 0",
         "the legalization passes (improve/run/refine/transport) are exercised on placement areas with positive extent only",
+        "'in exactly one bin through any sequence of passes' is proved for refine / coarsen / rebisect; for Redistribute it holds by definition of the step's guard, and run / improve* / transports / reoptimize are validated per run against it",
+        "not in model or tie: cell areas >= 2^31 (narrowed to int demands by the C++), circuits without a cell of positive height (minCellHeight = INT_MAX), inexact float factors, negative / NaN side margins, NaN / inf targets; 'non-zero area' is read as non-zero demand",
+        "the spread oracle accepts lo-t <= v <= hi+t (weaker than the property now that the code clamps); cases with non-disjoint regions return no verdict; GENERR / malformed corpus lines are only counted",
         "model tied to the code on the cases of this run: exact for geometry/capacities/parents/findBin/coarsen/setBinCells/"
         "findConstrainedSplitPos, relational (Redistribute + proved partition checker) for refine and the float-driven passes"])
 
